@@ -2,25 +2,31 @@ use crate::engine::Prop;
 
 pub mod c03;
 pub mod c04;
+pub mod c06;
 pub mod c08;
 pub mod c09;
 pub mod c10;
+pub mod c11;
 pub mod c12;
 pub mod c13;
+pub mod c14;
 pub mod c15;
 pub mod c19;
 
-pub const ALL: &[&str] = &["C03", "C04", "C08", "C09", "C10", "C12", "C13", "C15", "C19"];
+pub const ALL: &[&str] = &["C03", "C04", "C06", "C08", "C09", "C10", "C11", "C12", "C13", "C14", "C15", "C19"];
 
 pub fn get(id: &str) -> Option<Box<dyn Prop>> {
     match id {
         "C03" => Some(Box::new(c03::C03)),
         "C04" => Some(Box::new(c04::C04)),
+        "C06" => Some(Box::new(c06::C06)),
         "C08" => Some(Box::new(c08::C08)),
         "C09" => Some(Box::new(c09::C09)),
         "C10" => Some(Box::new(c10::C10)),
+        "C11" => Some(Box::new(c11::C11)),
         "C12" => Some(Box::new(c12::C12)),
         "C13" => Some(Box::new(c13::C13)),
+        "C14" => Some(Box::new(c14::C14)),
         "C15" => Some(Box::new(c15::C15)),
         "C19" => Some(Box::new(c19::C19)),
         _ => None,
